@@ -17,6 +17,7 @@ package argmapper
 //@ func resultError
 //@   ensures result.buildErr == err && len(result.out) == 0
 //@   assigns Result.out, Result.buildErr
+//@   modifies nothing
 
 //@ func (*Result).Err
 //@   pure
@@ -69,22 +70,23 @@ package argmapper
 //@   ensures imp(n != "", fncode(result) == litcode("argmapper.Named$1") && captured(result, "argmapper.Named$1", "n") == n && captured(result, "argmapper.Named$1", "v") == v)
 //@   ensures imp(n == "", fncode(result) == litcode("argmapper.Typed$1") && len(captured(result, "argmapper.Typed$1", "vs")) == 1 && captured(result, "argmapper.Typed$1", "vs")[0] == v)
 //@   assigns []interface{}
+//@   modifies nothing
 
 //@ func Named$1
 //@   requires wfB(a)
 //@   ensures  result == nil && wfB(a)
 //@   ensures  [sets-lowercased-key] imp(v != nil, has(a.named, lower(n)) && a.named[lower(n)] == rvof(v))
 //@   ensures  [nil-ignored-others-kept] forall(k, string, imp(k != lower(n) || v == nil, has(a.named, k) == old(has(a.named, k)) && a.named[k] == old(a.named[k])))
-//@   ensures  [frame] forall(m, NamedM, imp(m != a.named, unchanged(m)))
 //@   assigns  NamedM
+//@   modifies a.named
 
 //@ func NamedSubtype$1
 //@   requires wfB(a)
 //@   ensures  result == nil && wfB(a)
 //@   ensures  [sets-lowercased-key] imp(v != nil, has(a.namedSub, lower(old(n))) && has(a.namedSub[lower(old(n))], st) && a.namedSub[lower(old(n))][st] == rvof(v))
 //@   ensures  [nil-ignored-others-kept] forall(k, string, s, string, imp(!(k == lower(old(n)) && s == st) || v == nil, has(a.namedSub[k], s) == old(has(a.namedSub[k], s)) && a.namedSub[k][s] == old(a.namedSub[k][s])))
-//@   ensures  [frame] unchanged(a.named) && builderFrame(a)
 //@   assigns  NamedM, NamedSubM
+//@   modifies a.namedSub, a.namedSub[lower(n)]
 
 //@ func Typed$1
 //@   requires wfB(a)
@@ -92,9 +94,9 @@ package argmapper
 //@   ensures  [sets] forall(j, int, imp(0 <= j && j < len(vs) && vs[j] != nil, has(a.typed, dyntype(vs[j]))))
 //@   ensures  [last-wins] forall(j, int, imp(0 <= j && j < len(vs) && vs[j] != nil && forall(i, int, imp(j < i && i < len(vs) && vs[i] != nil, dyntype(vs[i]) != dyntype(vs[j]))), a.typed[dyntype(vs[j])] == rvof(vs[j])))
 //@   ensures  [nil-ignored-others-kept] forall(t, reflect.Type, imp(forall(j, int, imp(0 <= j && j < len(vs) && vs[j] != nil, dyntype(vs[j]) != t)), has(a.typed, t) == old(has(a.typed, t)) && a.typed[t] == old(a.typed[t])))
-//@   ensures  [frame] forall(m, TypedM, imp(m != a.typed, unchanged(m)))
 //@   assigns  TypedM
-//@   loop 1 invariant a.typed != nil && a.typed == old(a.typed) && forall(m, TypedM, imp(m != a.typed, unchanged(m)))
+//@   modifies a.typed
+//@   loop 1 invariant a.typed != nil && a.typed == old(a.typed)
 //@   loop 1 invariant forall(j, int, imp(0 <= j && j < idx1 && vs[j] != nil, has(a.typed, dyntype(vs[j]))))
 //@   loop 1 invariant forall(j, int, imp(0 <= j && j < idx1 && vs[j] != nil && forall(i, int, imp(j < i && i < idx1 && vs[i] != nil, dyntype(vs[i]) != dyntype(vs[j]))), a.typed[dyntype(vs[j])] == rvof(vs[j])))
 //@   loop 1 invariant forall(t, reflect.Type, imp(forall(j, int, imp(0 <= j && j < idx1 && vs[j] != nil, dyntype(vs[j]) != t)), has(a.typed, t) == old(has(a.typed, t)) && a.typed[t] == old(a.typed[t])))
@@ -104,87 +106,105 @@ package argmapper
 //@   ensures  result == nil && wfB(a)
 //@   ensures  [sets] imp(v != nil, has(a.typedSub, dyntype(v)) && has(a.typedSub[dyntype(v)], st) && a.typedSub[dyntype(v)][st] == rvof(v))
 //@   ensures  [nil-ignored-others-kept] forall(t, reflect.Type, s, string, imp(!(t == dyntype(v) && s == st) || v == nil, has(a.typedSub[t], s) == old(has(a.typedSub[t], s)) && a.typedSub[t][s] == old(a.typedSub[t][s])))
-//@   ensures  [frame] unchanged(a.named) && builderFrame(a)
 //@   assigns  NamedM, TypedSubM
+//@   modifies a.typedSub, a.typedSub[dyntype(v)]
 
 //@ func ConverterFunc$1
 //@   requires a != nil
 //@   ensures  result == nil && forall(x, *argBuilder, imp(x != a, x.convs == old(x.convs)))
 //@   assigns  argBuilder.convs, []*Func
+//@   modifies a, a.convs
 //@   loop 1 invariant forall(x, *argBuilder, imp(x != a, x.convs == old(x.convs)))
 
 //@ func ConverterGen$1
 //@   requires a != nil
 //@   ensures  result == nil && forall(x, *argBuilder, imp(x != a, x.convGens == old(x.convGens)))
 //@   assigns  argBuilder.convGens, []ConverterGenFunc
+//@   modifies a, a.convGens
 //@   loop 1 invariant forall(x, *argBuilder, imp(x != a, x.convGens == old(x.convGens)))
 
 //@ func FilterInput$1
 //@   requires a != nil
 //@   ensures  result == nil && a.filterInput == f
 //@   assigns  argBuilder.filterInput
+//@   modifies a
 
 //@ func FilterOutput$1
 //@   requires a != nil
 //@   ensures  result == nil && a.filterOutput == f
 //@   assigns  argBuilder.filterOutput
+//@   modifies a
 
 //@ func Logger$1
 //@   requires a != nil
 //@   ensures  result == nil && a.logger == l
 //@   assigns  argBuilder.logger
+//@   modifies a
 
 //@ func FuncName$1
 //@   requires a != nil
 //@   ensures  result == nil && a.funcName == n
 //@   assigns  argBuilder.funcName
+//@   modifies a
 
 //@ func FuncOnce$1
 //@   requires a != nil
 //@   ensures  result == nil && a.funcOnce
 //@   assigns  argBuilder.funcOnce
+//@   modifies a
 
 // option constructors: which closure they return and what it captured
 //@ func Typed
 //@   ensures result != nil && fncode(result) == litcode("argmapper.Typed$1") && captured(result, "argmapper.Typed$1", "vs") == vs
 //@   assigns nothing
+//@   modifies nothing
 
 //@ func TypedSubtype
 //@   ensures result != nil
 //@   ensures imp(st != "", fncode(result) == litcode("argmapper.TypedSubtype$1") && captured(result, "argmapper.TypedSubtype$1", "v") == v && captured(result, "argmapper.TypedSubtype$1", "st") == st)
 //@   ensures imp(st == "", fncode(result) == litcode("argmapper.Typed$1") && len(captured(result, "argmapper.Typed$1", "vs")) == 1 && captured(result, "argmapper.Typed$1", "vs")[0] == v)
 //@   assigns []interface{}
+//@   modifies nothing
 
 //@ func NamedSubtype
 //@   ensures result != nil
 //@   ensures imp(n != "" && st != "", fncode(result) == litcode("argmapper.NamedSubtype$1") && captured(result, "argmapper.NamedSubtype$1", "n") == n && captured(result, "argmapper.NamedSubtype$1", "v") == v && captured(result, "argmapper.NamedSubtype$1", "st") == st)
 //@   ensures imp(n != "" && st == "", fncode(result) == litcode("argmapper.Named$1") && captured(result, "argmapper.Named$1", "n") == n && captured(result, "argmapper.Named$1", "v") == v)
 //@   assigns []interface{}
+//@   modifies nothing
 
 //@ func FuncOnce
 //@   ensures result != nil && fncode(result) == litcode("argmapper.FuncOnce$1")
 //@   assigns nothing
+//@   modifies nothing
 //@ func FuncName
 //@   ensures result != nil && fncode(result) == litcode("argmapper.FuncName$1") && captured(result, "argmapper.FuncName$1", "n") == n
 //@   assigns nothing
+//@   modifies nothing
 //@ func Logger
 //@   ensures result != nil && fncode(result) == litcode("argmapper.Logger$1") && captured(result, "argmapper.Logger$1", "l") == l
 //@   assigns nothing
+//@   modifies nothing
 //@ func FilterInput
 //@   ensures result != nil && fncode(result) == litcode("argmapper.FilterInput$1") && captured(result, "argmapper.FilterInput$1", "f") == f
 //@   assigns nothing
+//@   modifies nothing
 //@ func FilterOutput
 //@   ensures result != nil && fncode(result) == litcode("argmapper.FilterOutput$1") && captured(result, "argmapper.FilterOutput$1", "f") == f
 //@   assigns nothing
+//@   modifies nothing
 //@ func ConverterFunc
 //@   ensures result != nil && fncode(result) == litcode("argmapper.ConverterFunc$1") && captured(result, "argmapper.ConverterFunc$1", "fs") == fs
 //@   assigns nothing
+//@   modifies nothing
 //@ func ConverterGen
 //@   ensures result != nil && fncode(result) == litcode("argmapper.ConverterGen$1") && captured(result, "argmapper.ConverterGen$1", "fs") == fs
 //@   assigns nothing
+//@   modifies nothing
 //@ func Converter
 //@   ensures result != nil && fncode(result) == litcode("argmapper.Converter$1") && captured(result, "argmapper.Converter$1", "fs") == fs
 //@   assigns nothing
+//@   modifies nothing
 
 // ---------------------------------------------------------------- struct.go, value_set.go (C14, C15)
 //@ uf baseType(t reflect.Type) reflect.Type
@@ -202,11 +222,11 @@ package argmapper
 //@ func isStruct
 //@   requires t != nil
 //@   ensures  result == isMarkerStruct(t)
-//@   ensures  kept(reflect.StructField)
 //@   assigns  reflect.StructField
+//@   modifies nothing
 //@   loop 1 invariant t != nil && baseType(t) == baseType(old(t))
 //@   loop 1 decreases ptrDepth(t)
-//@   loop 2 invariant kept(reflect.StructField) && 0 <= i && i <= numField(t) && t == baseType(old(t)) && kindof(t) == 25
+//@   loop 2 invariant 0 <= i && i <= numField(t) && t == baseType(old(t)) && kindof(t) == 25
 //@   loop 2 invariant forall(j, int, imp(0 <= j && j < i, !isMarker(t, j)))
 //@   loop 2 decreases numField(t) - i
 
@@ -258,8 +278,8 @@ package argmapper
 //@   ensures  [mirrors-struct-7] imp(result1 == nil, vsP7(result0, baseType(old(typ)), numField(baseType(old(typ)))))
 //@   ensures  [mirrors-struct-8] imp(result1 == nil, vsP8(result0, baseType(old(typ)), numField(baseType(old(typ)))))
 //@   ensures  [error-means-nil] imp(result1 != nil, result0 == nil)
-//@   ensures  [frame] vsKept()
 //@   assigns  ValueSet, Value, valueInternal, []*Value, map[string]*Value, map[reflect.Type]*Value, map[string]string, []string, []interface{}, reflect.StructField, vpos
+//@   modifies nothing
 //@   after "name = strings.ToLower(name)" assert [tag-A] imp(ftag(typ, i) == "", !has(options, "typeOnly") && options["subtype"] == "")
 //@   after "name = strings.ToLower(name)" assert [tag-B] imp(ftag(typ, i) != "" && lastOpt(ftag(typ, i), "typeOnly") >= 1, has(options, "typeOnly"))
 //@   after "name = strings.ToLower(name)" assert [tag-C] imp(ftag(typ, i) != "" && has(options, "typeOnly"), lastOpt(ftag(typ, i), "typeOnly") >= 1)
@@ -270,7 +290,7 @@ package argmapper
 //@   after "result.values = append(result.values, &value)" set vpos = update(vpos, i, len(result.values)-1)
 //@   loop 1 invariant typ != nil && baseType(typ) == baseType(old(typ)) && 0 <= ptrCount && ptrDepth(old(typ)) == ptrDepth(typ) + ptrCount
 //@   loop 1 decreases ptrDepth(typ)
-//@   loop 2 invariant vsKept() && typ == baseType(old(typ)) && kindof(typ) == 25 && 0 <= i && i <= numField(typ) && ptrCount == ptrDepth(old(typ)) && ptrCount <= 1
+//@   loop 2 invariant typ == baseType(old(typ)) && kindof(typ) == 25 && 0 <= i && i <= numField(typ) && ptrCount == ptrDepth(old(typ)) && ptrCount <= 1
 //@   loop 2 invariant result != nil && fresh(result) && result.structPointers == ptrCount && !result.isLifted && fresh(result.namedValues) && fresh(result.typedValues) && fresh(result.values)
 //@   loop 2 invariant forall(j, int, imp(0 <= j && j < len(result.values), fresh(result.values[j])))
 //@   loop 2 invariant vsP0(result, typ, i)
@@ -283,7 +303,7 @@ package argmapper
 //@   loop 2 invariant vsP7(result, typ, i)
 //@   loop 2 invariant vsP8(result, typ, i)
 //@   loop 2 decreases numField(typ) - i
-//@   loop 3 invariant vsKept() && typ == baseType(old(typ)) && kindof(typ) == 25 && 0 <= i && i < numField(typ) && ptrCount == ptrDepth(old(typ)) && ptrCount <= 1
+//@   loop 3 invariant typ == baseType(old(typ)) && kindof(typ) == 25 && 0 <= i && i < numField(typ) && ptrCount == ptrDepth(old(typ)) && ptrCount <= 1
 //@   loop 3 invariant result != nil && fresh(result) && result.structPointers == ptrCount && !result.isLifted && fresh(result.namedValues) && fresh(result.typedValues) && fresh(result.values)
 //@   loop 3 invariant forall(j, int, imp(0 <= j && j < len(result.values), fresh(result.values[j])))
 //@   loop 3 invariant vsP0(result, typ, i)
@@ -324,16 +344,16 @@ package argmapper
 //@   ensures  [mixed-marker-rejected] imp(count > 1 && exists(i, int, 0 <= i && i < count && isMarkerStruct(getT(get, i))), result1 != nil)
 //@   ensures  [lifted] imp(count >= 1 && forall(i, int, imp(0 <= i && i < count, !isMarkerStruct(getT(get, i)))), result1 == nil && liftedVS(result0, get, count) && fresh(result0))
 //@   ensures  [error-means-nil] imp(result1 != nil, result0 == nil)
-//@   ensures  [frame] vsKept() && sliceskept([]reflect.StructField)
 //@   assigns  ValueSet, Value, valueInternal, []*Value, map[string]*Value, map[reflect.Type]*Value, map[string]string, []string, []interface{}, reflect.StructField, []reflect.StructField, vpos
-//@   loop 1 invariant vsKept() && sliceskept([]reflect.StructField) && 0 <= i && i <= count && len(sf) == i && soff(sf) == 0 && (fresh(sf) || sf == nil)
+//@   modifies nothing
+//@   loop 1 invariant 0 <= i && i <= count && len(sf) == i && soff(sf) == 0 && (fresh(sf) || sf == nil)
 //@   loop 1 invariant forall(j, int, imp(0 <= j && j < i, allocated(sf[j]) && sf[j] != nil && sf[j].Type == getT(get, j) && sf[j].Tag == "argmapper:\",typeOnly\"" && sf[j].PkgPath == "" && !sf[j].Anonymous && !isMarkerStruct(getT(get, j))))
 //@   loop 1 decreases count - i
 
 // ---------------------------------------------------------------- func.go: NewFunc (C14)
 //@ ghost hasFinalErr(ft reflect.Type) bool = numOut(ft) >= 1 && outType(ft, numOut(ft) - 1) == errType
 //@ ghost nOutVals(ft reflect.Type) int = numOut(ft) - ite(hasFinalErr(ft), 1, 0)
-//@ ghost funcFrame() bool = vsKept() && kept(Func, argBuilder, NamedM, NamedSubM, TypedM, TypedSubM)
+//@ ghost funcFrame() bool = kept(Func, argBuilder, NamedM, NamedSubM, TypedM, TypedSubM)
 
 //@ func NewFunc
 //@   ensures  [nil-or-non-func-rejected] imp(f == nil || kindof(dyntype(f)) != 19, result1 != nil)
@@ -346,19 +366,19 @@ package argmapper
 //@   ensures  [double-pointer-rejected] imp(f != nil && kindof(dyntype(f)) == 19 && numIn(dyntype(f)) == 1 && isMarkerStruct(inType(dyntype(f), 0)) && ptrDepth(inType(dyntype(f), 0)) > 1, result1 != nil)
 //@   ensures  [outputs-exclude-final-error] imp(result1 == nil && nOutVals(dyntype(f)) == 0, emptyVS(result0.output))
 //@   ensures  [outputs-lifted] imp(result1 == nil && nOutVals(dyntype(f)) >= 1 && forall(i, int, imp(0 <= i && i < nOutVals(dyntype(f)), !isMarkerStruct(outType(dyntype(f), i)))), liftedVS(result0.output, methodval("reflect.(Type).Out", dyntype(f)), nOutVals(dyntype(f))))
-//@   ensures  [frame] funcFrame()
 //@   assigns  Func, argBuilder, NamedM, NamedSubM, TypedM, TypedSubM, []*Func, []ConverterGenFunc, ValueSet, Value, valueInternal, []*Value, map[string]*Value, map[reflect.Type]*Value, map[string]string, []string, []interface{}, reflect.StructField, []reflect.StructField, vpos, rvstore, rvfresh
+//@   modifies nothing
 
 // Converter(fs...): every element must be a function (NewFunc); the new Funcs are appended
 //@ func Converter$1
 //@   requires a != nil
 //@   ensures  [non-function-is-an-error] imp(exists(j, int, 0 <= j && j < len(fs) && (fs[j] == nil || kindof(dyntype(fs[j])) != 19)), result != nil)
-//@   ensures  [frame] funcFrame2(a)
 //@   assigns  Func, argBuilder, NamedM, NamedSubM, TypedM, TypedSubM, []*Func, []ConverterGenFunc, ValueSet, Value, valueInternal, []*Value, map[string]*Value, map[reflect.Type]*Value, map[string]string, []string, []interface{}, reflect.StructField, []reflect.StructField, vpos, rvstore, rvfresh
-//@   loop 1 invariant a != nil && funcFrame2(a)
+//@   modifies a, a.convs
+//@   loop 1 invariant a != nil
 //@   loop 1 invariant forall(j, int, imp(0 <= j && j < idx1, fs[j] != nil && kindof(dyntype(fs[j])) == 19))
 // like funcFrame, but the converter list of builder a itself may change
-//@ ghost funcFrame2(a *argBuilder) bool = vsKept() && kept(Func, NamedM, NamedSubM, TypedM, TypedSubM, argBuilder.logger, argBuilder.named, argBuilder.namedSub, argBuilder.typed, argBuilder.typedSub, argBuilder.convGens, argBuilder.redefining, argBuilder.filterInput, argBuilder.filterOutput, argBuilder.funcName, argBuilder.funcOnce) && forall(x, *argBuilder, imp(old(allocated(x)) && x != a, x.convs == old(x.convs)))
+//@ ghost funcFrame2(a *argBuilder) bool = kept(Func, NamedM, NamedSubM, TypedM, TypedSubM, argBuilder.logger, argBuilder.named, argBuilder.namedSub, argBuilder.typed, argBuilder.typedSub, argBuilder.convGens, argBuilder.redefining, argBuilder.filterInput, argBuilder.filterOutput, argBuilder.funcName, argBuilder.funcOnce) && forall(x, *argBuilder, imp(old(allocated(x)) && x != a, x.convs == old(x.convs)))
 
 // what an option does to the named-value tables (a function of the closure only)
 //@ ghost setsNamed(o Arg, k string) bool = fncode(o) == litcode("argmapper.Named$1") && lower(captured(o, "argmapper.Named$1", "n")) == k && captured(o, "argmapper.Named$1", "v") != nil
@@ -374,9 +394,9 @@ package argmapper
 //@   ensures  [last-named-subtype-wins] imp(result0 != nil, forall(i, int, k, string, s, string, imp(0 <= i && i < len(opts) && setsNamedSub(opts[i], k, s) && forall(j, int, imp(i < j && j < len(opts), !setsNamedSub(opts[j], k, s))), has(result0.namedSub[k], s) && result0.namedSub[k][s] == namedSubVal(opts[i]))))
 //@   ensures  [only-supplied-subtypes] imp(result0 != nil, forall(k, string, s, string, imp(forall(i, int, imp(0 <= i && i < len(opts), !setsNamedSub(opts[i], k, s))), !has(result0.namedSub[k], s))))
 //@   ensures  [once-flag] imp(result0 != nil, forall(i, int, imp(0 <= i && i < len(opts) && fncode(opts[i]) == litcode("argmapper.FuncOnce$1"), result0.funcOnce)) && imp(forall(i, int, imp(0 <= i && i < len(opts), fncode(opts[i]) != litcode("argmapper.FuncOnce$1"))), !result0.funcOnce))
-//@   ensures  [frame] funcFrame()
 //@   assigns  Func, argBuilder, NamedM, NamedSubM, TypedM, TypedSubM, []*Func, []ConverterGenFunc, ValueSet, Value, valueInternal, []*Value, map[string]*Value, map[reflect.Type]*Value, map[string]string, []string, []interface{}, reflect.StructField, []reflect.StructField, vpos, rvstore, rvfresh
-//@   loop 1 invariant funcFrame() && wfB(builder) && fresh(builder) && fresh(builder.named) && fresh(builder.namedSub) && fresh(builder.typed) && fresh(builder.typedSub) && !builder.redefining
+//@   modifies nothing
+//@   loop 1 invariant wfB(builder) && fresh(builder) && fresh(builder.named) && fresh(builder.namedSub) && fresh(builder.typed) && fresh(builder.typedSub) && !builder.redefining
 //@   loop 1 invariant forall(k, string, imp(has(builder.namedSub, k), fresh(builder.namedSub[k]))) && forall(t, reflect.Type, imp(has(builder.typedSub, t), fresh(builder.typedSub[t])))
 //@   loop 1 invariant forall(i, int, imp(0 <= i && i < idx1, opts[i] != nil))
 //@   loop 1 invariant forall(i, int, k, string, imp(0 <= i && i < idx1 && setsNamed(opts[i], k) && forall(j, int, imp(i < j && j < idx1, !setsNamed(opts[j], k))), has(builder.named, k) && builder.named[k] == namedVal(opts[i])))
